@@ -64,9 +64,9 @@ def noTrailing : List Char → Bool
   | a :: b :: rest => !(isBlankChar a && isNl b) && noTrailing (b :: rest)
 
 /-- What the formatter owes the writer: a piece contains no tab and no line break, and the line is not ended while the
-last piece written ends in a blank.  `pend` = "the text so far ends in a blank written by the client". -/
+last piece written ends in a blank (nor is the text left ending in one).  `pend` = "the text so far ends in a blank written by the client". -/
 def clientOk : Bool → List Op → Bool
-  | _, [] => true
+  | pend, [] => !pend
   | pend, .write s :: rest =>
     s.all (fun c => !isTab c && !isNl c) && clientOk (if s.isEmpty then pend else endsBlank s) rest
   | pend, .newline :: rest => !pend && clientOk false rest
